@@ -464,7 +464,7 @@ reg("C18", hist("All histories (depth 5 quick / 7 thorough) of writes/disposes o
 reg("C19", hist("All histories over 3 instances x {write, dispose, unregister} for 11 consistent resource-limit settings: the snapshot never "
                 "exceeds a limit, a change that would exceed one is Rejected with a reason whose limit is really reached and leaves the "
                 "stored samples unchanged, a change with room is never rejected.",
-                HIST_RULE, "DESIGN.md §4 C19"))
+                HIST_RULE, "DESIGN.md §4 C19", also=["simcheck"]))
 reg("C20", hist("From every reachable cache state (depth 4 quick / 6 thorough) the complete read/take lattice (2 x max{unlimited,1,2,0} x 3 sample "
                 "masks x 3 view masks x 4 instance masks x 4 instance arguments = 1152 calls) is executed and every returned sample, every "
                 "SampleInfo field (states, generation counts, three ranks, handles, valid_data), the error code and the complete post-state "
